@@ -47,8 +47,23 @@ impl CypherTranslator {
     fn translate_query(&self, query: &ast::Query) -> Result<LogicalPlan> {
         let mut plan: Option<LogicalOperator> = None;
 
+        let mut previous: Option<&ast::Clause> = None;
         for clause in &query.clauses {
-            plan = Some(self.translate_clause(clause, plan)?);
+            plan = Some(match (clause, previous, plan) {
+                // A WHERE directly after OPTIONAL MATCH is part of that optional match: it is the
+                // condition of the left join, not a filter on the joined rows.
+                (
+                    ast::Clause::Where(where_clause),
+                    Some(ast::Clause::OptionalMatch(_)),
+                    Some(LogicalOperator::LeftJoin(mut left_join)),
+                ) if left_join.condition.is_none() => {
+                    left_join.condition =
+                        Some(self.translate_expression(&where_clause.predicate)?);
+                    LogicalOperator::LeftJoin(left_join)
+                }
+                (clause, _, plan) => self.translate_clause(clause, plan)?,
+            });
+            previous = Some(clause);
         }
 
         let root = plan.ok_or_else(|| Error::Internal("Empty query".into()))?;
